@@ -42,9 +42,16 @@ MetaChoices ==
     <<MEs("TYPE", "two", [DefSp EXCEPT !.alt = 2]), MEs("VERSION", "ver", [DefSp EXCEPT !.alt = 2, !.post = 1])>>,
     <<MEs("FLOW", "flow", [DefSp EXCEPT !.alt = 2]), ME("L", "l3")>> }
 
+(* HeaderMode "metavals": every value of PoolC as a META field and as a nested META field, in each of its spellings *)
+MetaValChoices ==
+  UNION {UNION {{<<ME("TYPE", "w"), MEs("K", v, [DefSp EXCEPT !.alt = a])>>,
+                  <<MN("NEST", <<[key |-> "X", v |-> v, sp |-> [DefSp EXCEPT !.alt = a]]>>)>>} : a \in 1..NSpell(v)}
+           : v \in PoolC \ ZoneIds}
 Headers ==
   IF HeaderMode = "plain"
   THEN {[env |-> "DOC", sent |-> None, fm |-> None, meta |-> <<>>, sep |-> FALSE]}
+  ELSE IF HeaderMode = "metavals"
+  THEN {[env |-> "DOC", sent |-> None, fm |-> None, meta |-> m, sep |-> p] : m \in MetaValChoices, p \in BOOLEAN}
   ELSE {[env |-> e, sent |-> s, fm |-> f, meta |-> m, sep |-> p] :
           e \in {"DOC", "INFERRED", "my_doc"}, s \in {None, "5.1.0"}, f \in {None, "fm1"}, m \in MetaChoices, p \in BOOLEAN}
 HeaderPlain(d) == d.env = "DOC" /\ d.sent = None /\ d.fm = None /\ d.meta = <<>> /\ ~d.sep
@@ -144,7 +151,7 @@ Next == AddItem
 
 (* ---------------------------------------------------------------------------------- *)
 (* what is handed to the harness: the document, its rendering and the receipts it owes  *)
-AllDefault(d) == Dev(d) = 0 /\ \A i \in DOMAIN d.meta : d.meta[i].sp = DefSp
+AllDefault(d) == Dev(d) = 0 /\ \A i \in DOMAIN d.meta : d.meta[i].sp = DefSp /\ \A j \in DOMAIN d.meta[i].nested : d.meta[i].nested[j].sp = DefSp
 EmitCase == PrintT(ToJson([doc |-> doc, lines |-> Render(doc), receipts |-> Receipts(Render(doc)),
                            abs |-> AbsDoc(doc), dev |-> Dev(doc)]))
 
